@@ -25,7 +25,8 @@ class Gen:
         r = self.r
         c = r.random()
         if depth > 2 or c < 0.3:
-            return r.choice(("0", "1", "2", "10", "255", "3.5", "&HFF", "100", "7"))
+            return r.choice(("0", "1", "2", "10", "255", "3.5", "&HFF", "100", "7", "&H10", "&HB", "&H100",
+                             "16", "11", "256"))
         if c < 0.55:
             return r.choice(NUM_NAMES)
         if c < 0.65:
@@ -312,8 +313,10 @@ class Gen:
         for _ in range(r.randint(1, 5)):
             c = r.random()
             if c < 0.35:
+                # hex sizes too: &HF declares 16 = &H10 elements, the value an expression may use
                 items.append("%s(%s)" % (r.choice(ARR_NAMES), ",".join(
-                    str(r.choice((1, 2, 5, 10))) for _ in range(r.randint(1, 3)))))
+                    str(r.choice((1, 2, 5, 10, "&HF", "&HA", "&HFF", 15, 255)))
+                    for _ in range(r.randint(1, 3)))))
             elif c < 0.65:
                 items.append("%s(%s)" % (r.choice(SARR_NAMES), ",".join(
                     str(r.choice((1, 2, 5))) for _ in range(r.randint(1, 2)))))
